@@ -19,7 +19,10 @@ EnumStarts == {AsTerm(T0), AsTerm(W("a")), AsSentence(S0), AsSentence(S1), AsSen
                AsTask(<<"0.5", "0.75", "0.4">>, S1), AsTask(<<"1", "1">>, S2)}
 LS(s) == [term |-> LexTree(s.t), punctuation |-> RE.punct[s.p],
           stamp |-> IF s.st.k = "Eternal" THEN "" ELSE RE.stamp_l \o RE.stamp[s.st.k] \o RE.stamp_r, truth |-> s.tr]
+\* lexical stamps are raw text: fixed stamps with an explicit plus sign, a minus sign, leading zeros
+LFixed(s, raw) == [LS(s) EXCEPT !.stamp = RE.stamp_l \o RE.stamp["Fixed"] \o raw \o RE.stamp_r]
 LexStarts == {[kind |-> "term", v |-> LexTree(T0)], [kind |-> "sentence", v |-> LS(S0)], [kind |-> "sentence", v |-> LS(S1)], [kind |-> "sentence", v |-> LS(S2)],
+              [kind |-> "sentence", v |-> LFixed(S1, "+5")], [kind |-> "sentence", v |-> LFixed(S2, "-007")], [kind |-> "task", v |-> [budget |-> <<"0.5">>, sentence |-> LFixed(S0, "+0")]],
               [kind |-> "task", v |-> [budget |-> <<>>, sentence |-> LS(S0)]], [kind |-> "task", v |-> [budget |-> <<"0.5">>, sentence |-> LS(S0)]]}
 AllOps(mm) == Ops \cup {"reparse_" \o FmtName} \cup (IF mm = "enum" THEN {"std_try_term", "std_try_sentence", "std_try_task"} ELSE {})
 
